@@ -679,7 +679,7 @@ Section C13_CS.
     apply (registration_identical_numpy R rO rI radd rmul rsub ropp Rth conj Cok N1 w1 Ninv1 N2 w2 Ninv2
              Rok1 Rok2 re re_conj ref im ms up (np_window (cc_spec ref im) up) H1 H2 Him
              (unique_peak_of_no_self_overlap ref Hn)).
-    - destruct ms as [m|]; [|exact I]. split; [exact Hms|]. apply acorr_origin_pos; assumption.
+    - exact Hms.
     - intros Hup x y Hx Hy. apply np_window_identical_centred; auto.
   Qed.
 
